@@ -1,6 +1,7 @@
 import Driver.Util
 import Driver.PipeAgg
 import MlModel.Model.PipeAggShard
+import MlModel.Model.Strategy
 /-!
 JSON handler of the `PipeAggShard` model (wire name `pipeaggshard`): a sharded run of a sliced aggregation.
 
@@ -39,7 +40,8 @@ def handle (j : Json) : Except String Json := do
     | _ => do
       let k ← Driver.getNat j "k"
       if k = 0 then throw "k must be positive"
-      pure (contiguousParts k bs)
+      -- `make(shard=ShardConfig(i, k))` over `SequenceDataSource(batches)`: the C09 model of `shard` (Model/Shard.lean)
+      pure (MlModel.Strategy.shardParts (MlModel.Shard.DS.root bs.length) k bs)
   let strict : Nat := match j.getObjVal? "strict" with
     | .ok (.num _) => match (j.getObjValAs? Int "strict") with
       | .ok i => if i < 0 then 0 else i.toNat
